@@ -432,8 +432,11 @@ def meta(tier):
                 'depth 2) | linear expression tree (BFS depth 1 and 2 over 5 leaves, 11 unary and 3 '
                 'binary combinators incl. complex scalars/vectors and .adjoint) | block operator over '
                 'all leaf pairs. Each state is decided for ALL x, y by evaluating the identity on '
-                'every pair of the real bases of domain and range. distinct = (operator class, '
-                'outcome) + executed lines of the adjoint properties',
+                'every pair of the real bases of domain and range. History inside a state: A '
+                'before / after its adjoint and adjoint.adjoint were built and used, A.adjoint '
+                'requested again, and the identity re-decided after the data elements handed to the '
+                'constructor were doubled in place (A now vs A.adjoint requested now). distinct = '
+                '(operator class, outcome) + executed lines of the adjoint properties',
         'bounds': {'max_dim': MAXDIM, 'expression_depth': 2 if tier == 'quick' else 3,
                    'spaces': ['rn3', 'cn2', 'rn3wa', 'ud3', 'cn2w2']},
         'assumptions': ['the inner products themselves are validated by C02',
